@@ -4,4 +4,3 @@ import PeptVerif.Props.C12Concrete
 #print axioms Pept.C12Concrete.mass_condense_concrete
 #print axioms Pept.C12Concrete.labels_resolve
 #print axioms Pept.C12Concrete.label_shift_concrete
-#print axioms Pept.C12Concrete.mass_bridge_label
